@@ -670,7 +670,8 @@ fn load(thorough: bool) -> (Vec<Proto>, Vec<String>) {
         let mut edges: Vec<Vec<Msg>> = vec![];
         if let Some((base, item_hex)) = alpha.big {
             let s1 = small[1 % small.len()].clone();
-            for total in [MAXSEG, 2 * MAXSEG] {
+            // the third size needs more than two full segments of buffering before it completes
+            for total in [MAXSEG, 2 * MAXSEG, 3 * MAXSEG + 1000] {
                 edges.push(vec![craft_total(base, item_hex, total)]);
                 edges.push(vec![s1.clone(), craft_total(base, item_hex, total - s1.bytes.len())]);
                 // the cut at the message boundary leaves B alone in full-size segments
@@ -755,6 +756,7 @@ struct Limits {
 }
 
 const UNIFORM: [usize; 5] = [2, 3, 7, 255, 65535];
+const EDGE_UNIFORM: [usize; 3] = [4096, 12_288, 40_000];
 /// Above this length single cuts are taken from a reduced position set.
 const DENSE_N: usize = 4096;
 const SINGLE_WINDOW: usize = 48;
@@ -810,6 +812,13 @@ fn for_each_seg(n: usize, bounds: &[usize], lim: &Limits, mode: Mode, f: &mut dy
         let mut set: BTreeSet<Vec<u32>> = BTreeSet::new();
         set.insert(normalize(&[], n));
         set.insert(normalize(&(1..).map(|i| (i * MAXSEG) as u32).take_while(|&c| (c as usize) < n).collect::<Vec<_>>(), n));
+        // mid-size segments (a sender cutting below the maximum): many short reads while the
+        // receiver buffers an ever longer incomplete message
+        for k in EDGE_UNIFORM {
+            if k < n {
+                set.insert(normalize(&(1..).map(|i| (i * k) as u32).take_while(|&c| (c as usize) < n).collect::<Vec<_>>(), n));
+            }
+        }
         for c in window_positions(n, bounds, SINGLE_WINDOW) {
             set.insert(normalize(&[c], n));
         }
@@ -1338,7 +1347,7 @@ pub fn run(ctx: Ctx) -> ! {
         .collect();
     let rule = format!(
         "evaluation = one (stream, segmentation) executed on one real receive path (pallas-network: enqueue_chunk -> Muxer -> pipe -> Demuxer -> ChannelBuffer::recv_full_msg::<protocol message type>, then a complete sentinel message; pallas-network2: write_segment -> pipe -> read_full_msgs::<AnyMessage> once per segment, partial_chunks empty at the end; and AnyMessage::from_payload fed the same segments directly). \
-         Streams per protocol: (a) every sequence of 1..3 messages over the protocol's reduced alphabet (first {QUICK_ALPHA} entries in quick, all 7 in thorough; listed under `alphabets`), (b) streams with one crafted message carrying a {BIG_BODY}-byte body where the protocol has a body field ([B], [s,B,s'] in quick; also [s,B], [B,s'], [B,B] in thorough), (b') where the protocol has a body field, six streams whose large message can end exactly where a full-size segment ends: [B] with |B| = 65535 and = 131070 bytes, [s,B] with |s|+|B| = 65535 and = 131070, and [s,B] with |B| = 65535 and = 131070 (body length chosen from the target), run with no cut (= the sender's 65535-byte chunking = uniform 65535) and every single cut within {SINGLE_WINDOW} bytes of a message start/end or 2 of a 65535 multiple; the receiver has to yield every stream message BEFORE the sentinel is enqueued (a receiver that waits for more data is reported as stalled), (c) every other mc-proto message of the protocol that passes C22 and is <= 4096 bytes, as a single-message stream. \
+         Streams per protocol: (a) every sequence of 1..3 messages over the protocol's reduced alphabet (first {QUICK_ALPHA} entries in quick, all 7 in thorough; listed under `alphabets`), (b) streams with one crafted message carrying a {BIG_BODY}-byte body where the protocol has a body field ([B], [s,B,s'] in quick; also [s,B], [B,s'], [B,B] in thorough), (b') where the protocol has a body field, six streams whose large message can end exactly where a full-size segment ends: [B] with |B| = 65535, = 131070 and = 197605 bytes, [s,B] with |s|+|B| = those sizes, and [s,B] with |B| = those sizes (body length chosen from the target), run with no cut (= the sender's 65535-byte chunking = uniform 65535), uniform 4096 / 12288 / 40000-byte segments and every single cut within {SINGLE_WINDOW} bytes of a message start/end or 2 of a 65535 multiple; the receiver has to yield every stream message BEFORE the sentinel is enqueued (a receiver that waits for more data is reported as stalled), (c) every other mc-proto message of the protocol that passes C22 and is <= 4096 bytes, as a single-message stream. \
          Segmentations of a stream of n bytes: n <= {} : all 2^(n-1) cut sets; otherwise: no cut, every single cut (n <= {DENSE_N}: every position; longer: every position within {SINGLE_WINDOW} bytes of a message start/end, within 2 of a multiple of 65535, and every {STRIDE}th byte), every pair of cuts (n <= {}: all positions; longer streams: positions within {} bytes of a message boundary / 65535 multiple; not for (c) in quick), the all-1-byte segmentation, uniform k-byte segmentations k in {{2,3,7,255,65535}}, and segmentations with an EMPTY segment (one in the middle of the stream, and, for streams of >= 2 messages, one exactly between the first two messages). Segments longer than 65535 bytes are further cut at 65535-byte steps. Odd job indices run server->client / with the server bit set. \
          distinct_nontrivial = number of distinct (stack, protocol, stream, cut set) in which at least one cut lies strictly inside a message (counted once for the two pallas-network2 paths; the empty-segment case is not counted).",
         lim.full_n, lim.pair_n, lim.pair_window
